@@ -3,6 +3,7 @@ executed one at a time in the order TLC chose; an extraction's implementation is
 (trickery fills start_line, the referents fallback cannot).  stdlib-only.
 usage: trickery_driver.py <behaviours.json> <out.json>"""
 import json
+import os
 import queue
 import sys
 import threading
@@ -20,8 +21,13 @@ class CM:
         return False
 
 
-def target():
-    with CM() as m:  # noqa: F841
+LOCK = threading.Lock()
+
+
+def target(box):
+    # a manager written in Python and two implemented in C (their __exit__ is a builtin method)
+    with CM() as m, LOCK as lk, open(os.devnull) as fh:  # noqa: F841
+        box.extend([m, LOCK, fh])
         yield 1
 
 
@@ -40,15 +46,19 @@ class Worker:
                 lowlevel.set_trickery_enabled({"none": None, "on": True, "off": False}[op["v"]])
                 self.r.put("-")
             else:
-                g = target()
+                box = []
+                g = target(box)
                 next(g)
                 with warnings.catch_warnings(record=True) as wl:
                     warnings.simplefilter("always")
                     st = stackscope.extract(g)
                 ctxs = st.frames[0].contexts
                 used = "?"
-                if len(ctxs) == 1:
+                if len(ctxs) >= 1 and ctxs[0].obj is box[0]:
                     used = "on" if ctxs[0].start_line is not None and ctxs[0].varname == "m" else "off"
+                # in EITHER mode every truly active manager is there, in order, Python or C
+                if [c.obj for c in ctxs] != box or any(c.is_async or c.is_exiting for c in ctxs):
+                    used += " managers %s (active: CM, lock, TextIOWrapper)" % [type(c.obj).__name__ for c in ctxs]
                 if [w for w in wl if issubclass(w.category, RuntimeWarning)]:
                     used += "+warning"
                 g.close()
